@@ -246,6 +246,6 @@ HARNESSES = {
         stubs=["none: real RTCPeerConnection objects, aioice gathers on local interfaces; background connection tasks are cancelled at the end of every path"],
         outside=["pranswer / rollback", "sequences longer than 4 calls", "symbolic SDP content (C09)"],
         twin="call-made",
-        opts={"samples": 1, "path_timeout_s": 120},
+        opts={"samples": 1, "path_timeout_s": 120, "gc_guard": True},
     )
 }
